@@ -130,3 +130,10 @@ class LitSet:
   """set literal of python string literals whose element sort is decided by use"""
   def __init__(self, items):
     self.items = frozenset(items)
+
+
+class Effect:
+  """External procedure with side effects outside the model: each call is recorded in the ghost
+  call log (Exec.ghost[name] = list of argument tuples); returns `ret` (fresh) or None."""
+  def __init__(self, name, argsorts, ret=None, note=''):
+    self.name, self.argsorts, self.ret, self.note = name, argsorts, ret, note
